@@ -259,6 +259,12 @@ def r3_caps(ctx):
                     region = [x for x in h.reach([tgt], removed_nodes=[S]) if h.edge_dominated(x, S, [lab])] + [tgt]
                     if any(st["rv"]["k"] == "agg" and st["rv"].get("variant") == "Err" for x in region for st in h.blocks[x]["s"]):
                         err_on = (lab != 0)
+            # the caps are byte limits: what is compared is the byte length of the text, not a count of characters
+            if hid.endswith("validate_named_text"):
+                if re.search(r"\blen\(value\)", other) and not re.search(r"\b(count|chars|char_indices)\(", other):
+                    ctx.ok("helper-unit|validate_named_text", h.where(b), "compares the byte length len(value)")
+                else:
+                    ctx.bad("helper-unit|validate_named_text", h.where(b), "validate_named_text compares `%s` with its byte limit: the max_*_bytes caps bound the size in bytes, and a count of characters lets non-ASCII text through at up to four times the limit" % other[:70])
             # refusal exactly when len > max:  (Gt, Err on true)  or  (Le, Err on false)
             if (nop == "Gt" and err_on is True) or (nop == "Le" and err_on is False):
                 ctx.ok("helper-compare|%s" % hid.split("::")[-1], h.where(b), "%s > %s -> Err" % (other, maxname))
@@ -279,6 +285,20 @@ def r3_caps(ctx):
             ctx.bad("helper-test|%s" % label, h.where(), "validate_named_text no longer tests for %s" % label)
         else:
             ctx.ok("helper-test|%s" % label, h.where(c.block), "%s test present" % label)
+    # the default: a command without timeout_ms() runs under caps.default_timeout_ms (not under the maximum, not unbounded)
+    fb = [c for c in v.calls() if (c.callee or "").split("::")[-1] in ("unwrap_or", "unwrap_or_else", "map_or", "unwrap_or_default") and "timeout_ms" in sh(ne(v.deep(c.args[0])))]
+    if fb and len(fb[0].args) > 1 and sh(ne(v.deep(fb[0].args[1]))) == "caps.default_timeout_ms":
+        ctx.ok("default-timeout", v.where(fb[0].block), "timeout_ms.unwrap_or(caps.default_timeout_ms)")
+    else:
+        ctx.bad("default-timeout|%s" % (sh(ne(v.deep(fb[0].args[1])))[:30] if fb and len(fb[0].args) > 1 else "none"), v.where(fb[0].block if fb else None), "a command that sets no timeout does not fall back to ProcessCaps.default_timeout_ms (%s): it runs under a different limit than the host configured as the default" % (sh(ne(v.deep(fb[0].args[1])))[:40] if fb and len(fb[0].args) > 1 else "no fallback found"))
+    # every cap configures something: each field of ProcessCaps is read by validate or by the runner
+    rd_v = fields_read(v, "ProcessCaps")
+    rd_r = fields_read(ctx.need(HOST), "ProcessCaps")
+    for fld in caps_fields:
+        if fld in rd_v or fld in rd_r:
+            ctx.ok("cap-read|%s" % fld, v.where(), "read by %s" % ("validate" if fld in rd_v else "the runner"))
+        else:
+            ctx.bad("cap-read|%s" % fld, v.where(), "ProcessCaps.%s is read neither by validate nor by the runner: the host's setting has no effect" % fld)
     # runner-side caps
     f = ctx.need(HOST)
     rd = fields_read(f, "ProcessCaps")
@@ -452,19 +472,33 @@ def r7_index_paths_walk_the_same_way(ctx):
                 if "flatten_index_target(" in t:
                     its.append(("rev" if re.search(r"\brev\(", t) else "fwd", c.block, t[:50]))
         dirs[name] = its
-    ref = [d for d, b, t in dirs.get("get_mutable_array", [])]
+    # the absolute reference: flatten_index_target collects the subscripts while it descends from the outermost Index node
+    # (last subscript first) and hands them out root-first iff it reverses the list before returning it
+    fl = ctx.need("runtime::Runtime::flatten_index_target")
+    ctx.touch(fl)
+    reverses = sum(1 for c in fl.calls() if (c.callee or "").split("::")[-1] == "reverse") % 2 == 1
+    want = "fwd" if reverses else "rev"
     for name, its in dirs.items():
         f = ctx.need("runtime::Runtime::" + name)
         got = [d for d, b, t in its]
         if not its:
             ctx.bad("index-path|%s|no-walk" % name, f.where(), "%s no longer walks the index path returned by flatten_index_target" % name)
-        elif got == ref[:len(got)] or (name == "assign_index" and set(got) == set(ref)):
-            ctx.ok("index-path|%s" % name, f.where(its[0][1]), "walks the path %s" % "/".join(got))
+        elif all(d == want for d in got):
+            ctx.ok("index-path|%s" % name, f.where(its[0][1]), "walks the path %s (flatten_index_target returns it %s)" % ("/".join(got), "root-first" if reverses else "last subscript first"))
         else:
-            ctx.bad("index-path|%s|direction|%s" % (name, "/".join(got)), f.where(its[0][1]), "%s walks the index path %s while get_mutable_array walks it %s: with two or more subscripts the operation lands on the element at the reversed path (`grid[0][1].arg(x)` configures grid[1][0])" % (name, "/".join(got), "/".join(ref)))
+            ctx.bad("index-path|%s|direction|%s" % (name, "/".join(got)), f.where(its[0][1]), "%s walks the index path %s, but flatten_index_target returns the subscripts %s, so the walk from the variable has to consume them %s: with two or more subscripts the operation lands on the element at the reversed path (`grid[0][1].push(x)` changes grid[1][0])" % (name, "/".join(got), "root-first" if reverses else "last subscript first", want))
 
 
-RULES = [("C15-R1", r1_gate), ("C15-R2", r2_no_shell), ("C15-R3", r3_caps), ("C15-R3b", r3b_refusal_before_spawn), ("C15-R4", r4_nothing_dropped), ("C15-R5", r5_set_env), ("C15-R6", r6_configured_text_outlives_configuration), ("C15-R3c", r3c_totals_compared_after_accumulation), ("C15-R7", r7_index_paths_walk_the_same_way)]
+def r8_builder_calls_are_effects(ctx):
+    """`c.env(k, v)`, `c.cwd(d)`, `c.arg(a)`, `c.stdin_text(t)`, `c.timeout_ms(n)` change the command they are called on.  The
+    optimiser may drop a statement whose value is unused only if it has no effect: the effect table must class every
+    configuring method as impure, or a configuration step whose (null) result is stored in an unused variable is pruned and
+    the child runs without it (shared with C03-R2, which compares the effect tables with what the run-time arms do)."""
+    from .c03 import r2_effect_tables
+    r2_effect_tables(ctx)
+
+
+RULES = [("C15-R1", r1_gate), ("C15-R2", r2_no_shell), ("C15-R3", r3_caps), ("C15-R3b", r3b_refusal_before_spawn), ("C15-R4", r4_nothing_dropped), ("C15-R5", r5_set_env), ("C15-R6", r6_configured_text_outlives_configuration), ("C15-R3c", r3c_totals_compared_after_accumulation), ("C15-R7", r7_index_paths_walk_the_same_way), ("C15-R8", r8_builder_calls_are_effects)]
 
 EXPLANATION = (
     "R1: the platform process runner is invoked only from the `run` arm of the command dispatcher, edge-dominated by "
@@ -476,6 +510,9 @@ EXPLANATION = (
     "tests and their per-field flags are present. R4: validate's ProcessSpec reads all builder fields, the runner reads all "
     "ProcessSpec fields, clone_into copies all command fields. R5: set_env overwrites an existing key. Decides the wiring "
     "and the comparison shape on all paths; does not decide byte-exact delivery by the OS."
+)
+EXPLANATION += (
+    ' R7: the direction in which get_mutable_array, get_mutable_process_command and assign_index consume the subscript list is compared with an absolute reference - flatten_index_target returns the list root-first iff it reverses what it collected - so a reversed walk is reported in the routine that has it.'
 )
 ASSUMPTIONS = ["unix back end only (windows/wasm back ends are not compiled on this host)", "std::process::Command delivers argv/env/cwd verbatim (no shell)"]
 TRUSTED = ["rustc nightly MIR and trait resolution", "nsx exporter", "nsverif expression reconstruction"]
